@@ -3,6 +3,7 @@ package main
 import (
 	"bytes"
 	"fmt"
+	"strings"
 
 	"github.com/miekg/dns"
 	"verif/harness/bind"
@@ -135,6 +136,53 @@ func c04Spaces(c *fw.Ctx) {
 				emit(func(r *fw.R) {
 					c04Check(r, m)
 					r.Sample(func() any { return fmt.Sprintf("late name at offset %d", at) })
+				})
+			})
+		})
+	c.Space("after-failed-pack", "state carried between calls: before each message of a 600-message subset of 'pairs' one of 6 messages is packed that FAILS after some names have been written (non-FQDN RDATA name, 64-octet label, oversize TXT, RDATA > 65535, bad NSEC bitmap order, nil record), with and without compression, then the message under test is packed and checked as usual; non-trivial: ≥1 pointer", true,
+		func(emit func(func(*fw.R))) {
+			bad := func(k int) *dns.Msg {
+				m := new(dns.Msg)
+				m.Compress = true
+				m.SetQuestion("a.example.", dns.TypeA)
+				ok1 := &dns.NS{Hdr: dns.RR_Header{Name: "example.", Rrtype: dns.TypeNS, Class: 1}, Ns: "b.a.example."}
+				m.Answer = []dns.RR{ok1}
+				switch k {
+				case 0:
+					m.Answer = append(m.Answer, &dns.NS{Hdr: dns.RR_Header{Name: "A.example.", Rrtype: dns.TypeNS, Class: 1}, Ns: "not-fqdn"})
+				case 1:
+					m.Answer = append(m.Answer, &dns.CNAME{Hdr: dns.RR_Header{Name: "x." + strings.Repeat("l", 64) + ".example.", Rrtype: dns.TypeCNAME, Class: 1}, Target: "a.example."})
+				case 2:
+					m.Answer = append(m.Answer, &dns.TXT{Hdr: dns.RR_Header{Name: "b.a.example.", Rrtype: dns.TypeTXT, Class: 1}, Txt: []string{strings.Repeat("t", 300)}})
+				case 3:
+					m.Answer = append(m.Answer, &dns.RFC3597{Hdr: dns.RR_Header{Name: "EXAMPLE.", Rrtype: 65280, Class: 1}, Rdata: strings.Repeat("ab", 66000)})
+				case 4:
+					m.Ns = append(m.Ns, &dns.NSEC{Hdr: dns.RR_Header{Name: "a.b.example.", Rrtype: dns.TypeNSEC, Class: 1}, NextDomain: "x.", TypeBitMap: []uint16{300, 1}})
+				case 5:
+					m.Extra = append(m.Extra, nil)
+				}
+				return m
+			}
+			n := 0
+			genPairs(5, func(m *wire.Msg) {
+				n++
+				if n%190 != 0 {
+					return
+				}
+				emit(func(r *fw.R) {
+					for k := 0; k < 6; k++ {
+						for _, comp := range []bool{true, false} {
+							b := bad(k)
+							b.Compress = comp
+							func() {
+								defer func() { recover() }()
+								if _, err := b.Pack(); err == nil && k != 5 {
+									r.Fail("internal/bad-message-packs", "the message meant to fail (kind %d) packed", k)
+								}
+							}()
+							c04Check(r, m)
+						}
+					}
 				})
 			})
 		})
